@@ -20,21 +20,31 @@ theorem extSer_pos (all : Array Ext) (nbF : Nat) (hv : AllValid all nbF) (hpos :
   | nil => rw [hs] at hl; simp at hl; omega
   | cons e l => exact List.length_pos_iff.mpr serBytes_ne_nil
 
-/-- Dry run of the generator: the size of `extSer` when it fits, `BUFFER_TOO_SMALL` otherwise. -/
-theorem generateDry_norep (all : Array Ext) (nbF : Nat) (hnf : nbF ≤ 48) (hv : AllValid all nbF) (hnr : NoRepeat all nbF)
-    (len : Int) (hl : 0 ≤ len) :
-    generateDry len all nbF false =
-      if ((extSer all nbF).length : Int) ≤ len then .ok (extSer all nbF).length else .err .bufferTooSmall := by
-  have hE := allValid_extsOk hv
-  rw [generate_dry_eq_written len all nbF false hE]
-  have hbig := (generate_parse_norepeat all nbF hnf hv hnr (extSer all nbF).length (Int.le_refl _) all.size (Int.le_refl _)).1
+/-- What the repacketizer needs of `opus_packet_extensions_generate` for the array `all`: with any
+    sufficient buffer it writes the (non-empty) byte string `B`. -/
+structure GenBytes (all : Array Ext) (nbF : Nat) (B : Bytes) : Prop where
+  ok : ExtsOk all
+  gen : ∀ len : Int, (B.length : Int) ≤ len → generate false len all nbF false = .ok B.toArray
+  pos : 0 < B.length
+
+/-- Dry run of the generator: the size of `B` when it fits, `BUFFER_TOO_SMALL` otherwise. -/
+theorem generateDry_gen (all : Array Ext) (nbF : Nat) (B : Bytes) (hG : GenBytes all nbF B) (len : Int) (hl : 0 ≤ len) :
+    generateDry len all nbF false = if (B.length : Int) ≤ len then .ok B.length else .err .bufferTooSmall := by
+  rw [generate_dry_eq_written len all nbF false hG.ok]
+  have hbig := hG.gen B.length (Int.le_refl _)
   split
   · rename_i hfit
-    rw [(generate_parse_norepeat all nbF hnf hv hnr len hfit all.size (Int.le_refl _)).1]
-    simp [resSize, extSer]
+    rw [hG.gen len hfit]
+    simp [resSize]
   · rename_i hfit
-    have := (generate_exact_and_smaller hE hbig).2 len false false hl (by simp [extSer] at hfit ⊢; omega)
+    have := (generate_exact_and_smaller hG.ok hbig).2 len false false hl (by simp at hfit ⊢; omega)
     rw [this]; rfl
+
+/-- The `NoRepeat` instance (C16 `generate_parse_norepeat`). -/
+theorem genBytes_norep (all : Array Ext) (nbF : Nat) (hnf : nbF ≤ 48) (hv : AllValid all nbF) (hnr : NoRepeat all nbF)
+    (hpos : 0 < all.size) : GenBytes all nbF (extSer all nbF) :=
+  ⟨allValid_extsOk hv, fun len hfit => (generate_parse_norepeat all nbF hnf hv hnr len hfit all.size (Int.le_refl _)).1,
+   extSer_pos all nbF hv hpos⟩
 
 /-- Padding written with extensions: `nb` length bytes 255, a final length byte, `0x01` fill, extensions. -/
 def extPad (amount : Int) (ser : Bytes) : Pad :=
@@ -46,70 +56,68 @@ def extPad (amount : Int) (ser : Bytes) : Pad :=
 def extAmount (maxlen tot : Int) (pad : Bool) (L : Nat) : Int :=
   if pad then maxlen - tot else (L : Int) + L / 254 + 1
 
-/-- Code 3 with extensions (no repeats). -/
+/-- Code 3 with extensions: `B` = what the generator writes for `all`. -/
 theorem code3_ext (toc : Nat) (frames : List Bytes) (hne : frames ≠ []) (hn48 : frames.length ≤ 48)
-    (all : Array Ext) (hpos : 0 < all.size) (hv : AllValid all frames.length) (hnr : NoRepeat all frames.length)
+    (all : Array Ext) (hpos : 0 < all.size) (B : Bytes) (hG : GenBytes all frames.length B)
     (tot0 maxlen : Int) (sdBytes : Bytes) (pad : Bool) :
     code3 toc frames tot0 maxlen sdBytes pad all =
-      let L := (extSer all frames.length).length
+      let L := B.length
       let tot := tot3 (frames.map List.length) tot0
       let amount := extAmount maxlen tot pad L
       if tot > maxlen ∨ maxlen - tot < L ∨ tot + L + (amount - 1) / 255 + 1 > maxlen then .err .bufferTooSmall
       else .ok ([toc / 4 * 4 + 3, frames.length + 64 + (if isVbr (frames.map List.length) then 128 else 0)] ++
-                (extPad amount (extSer all frames.length)).hdr ++
+                (extPad amount B).hdr ++
                 (if isVbr (frames.map List.length) then (frames.map List.length).dropLast.flatMap encLen else []) ++
-                sdBytes ++ frames.flatten ++ (extPad amount (extSer all frames.length)).bytes) := by
-  have hLpos := extSer_pos all frames.length hv hpos
+                sdBytes ++ frames.flatten ++ (extPad amount B).bytes) := by
+  have hLpos := hG.pos
   simp only []
   unfold code3
   simp only []
   by_cases hbig : tot3 (frames.map List.length) tot0 > maxlen
   · rw [if_pos hbig, if_pos (Or.inl hbig)]
   · rw [if_neg hbig, if_pos hpos]
-    rw [generateDry_norep all frames.length hn48 hv hnr _ (by omega)]
-    by_cases hfit : ((extSer all frames.length).length : Int) ≤ maxlen - tot3 (frames.map List.length) tot0
+    rw [generateDry_gen all frames.length B hG _ (by omega)]
+    by_cases hfit : (B.length : Int) ≤ maxlen - tot3 (frames.map List.length) tot0
     · rw [if_pos hfit]
       simp only []
       have ham : (if pad = true then (if pad = true then maxlen - tot3 (frames.map List.length) tot0 else 0)
-          else ((extSer all frames.length).length : Int) + ((extSer all frames.length).length : Int) / 254 + 1) =
-          extAmount maxlen (tot3 (frames.map List.length) tot0) pad (extSer all frames.length).length := by
+          else (B.length : Int) + (B.length : Int) / 254 + 1) =
+          extAmount maxlen (tot3 (frames.map List.length) tot0) pad B.length := by
         unfold extAmount; cases pad <;> simp
       rw [ham]
-      have hane : extAmount maxlen (tot3 (frames.map List.length) tot0) pad (extSer all frames.length).length ≠ 0 := by
+      have hane : extAmount maxlen (tot3 (frames.map List.length) tot0) pad B.length ≠ 0 := by
         unfold extAmount; cases pad <;> simp <;> omega
       rw [if_pos hane]
-      by_cases h3 : tot3 (frames.map List.length) tot0 + ((extSer all frames.length).length : Int) +
-          (extAmount maxlen (tot3 (frames.map List.length) tot0) pad (extSer all frames.length).length - 1) / 255 + 1 > maxlen
+      by_cases h3 : tot3 (frames.map List.length) tot0 + (B.length : Int) +
+          (extAmount maxlen (tot3 (frames.map List.length) tot0) pad B.length - 1) / 255 + 1 > maxlen
       · rw [if_pos h3, if_pos (Or.inr (Or.inr h3))]
       · have hrhs : ¬ (tot3 (frames.map List.length) tot0 > maxlen ∨
-            maxlen - tot3 (frames.map List.length) tot0 < ((extSer all frames.length).length : Int) ∨
-            tot3 (frames.map List.length) tot0 + ((extSer all frames.length).length : Int) +
-            (extAmount maxlen (tot3 (frames.map List.length) tot0) pad (extSer all frames.length).length - 1) / 255 + 1 > maxlen) := by
+            maxlen - tot3 (frames.map List.length) tot0 < (B.length : Int) ∨
+            tot3 (frames.map List.length) tot0 + (B.length : Int) +
+            (extAmount maxlen (tot3 (frames.map List.length) tot0) pad B.length - 1) / 255 + 1 > maxlen) := by
           omega
         rw [if_neg h3, if_neg hrhs]
         have hlay : ¬ (tot3 (frames.map List.length) tot0 +
-            extAmount maxlen (tot3 (frames.map List.length) tot0) pad (extSer all frames.length).length -
-            ((extSer all frames.length).length : Int) <
+            extAmount maxlen (tot3 (frames.map List.length) tot0) pad B.length -
+            (B.length : Int) <
             tot3 (frames.map List.length) tot0 +
-            (extAmount maxlen (tot3 (frames.map List.length) tot0) pad (extSer all frames.length).length - 1) / 255 + 1) := by
+            (extAmount maxlen (tot3 (frames.map List.length) tot0) pad B.length - 1) / 255 + 1) := by
           unfold extAmount at h3 ⊢; cases pad <;> simp at h3 ⊢ <;> omega
         rw [if_neg hlay, if_neg (by omega : ¬ (pad = true ∧ all.size = 0))]
-        rw [if_pos (by omega : (0 : Int) < ((extSer all frames.length).length : Int))]
-        have hgen := (generate_parse_norepeat all frames.length hn48 hv hnr (extSer all frames.length).length
-          (Int.le_refl _) all.size (Int.le_refl _)).1
-        have hgen' : generate false ((extSer all frames.length).length : Int) all (frames.length : Int) false =
-            .ok (extSer all frames.length).toArray := hgen
+        rw [if_pos (by omega : (0 : Int) < (B.length : Int))]
+        have hgen' : generate false (B.length : Int) all (frames.length : Int) false = .ok B.toArray :=
+          hG.gen B.length (Int.le_refl _)
         rw [hgen']
         simp only [List.size_toArray, if_true]
         simp only [extPad, Pad.hdr, vbrSizeBytes_eq]
         have e1 : (tot3 (frames.map List.length) tot0 +
-            extAmount maxlen (tot3 (frames.map List.length) tot0) pad (extSer all frames.length).length -
-            ((extSer all frames.length).length : Int) -
+            extAmount maxlen (tot3 (frames.map List.length) tot0) pad B.length -
+            (B.length : Int) -
             (tot3 (frames.map List.length) tot0 +
-            (extAmount maxlen (tot3 (frames.map List.length) tot0) pad (extSer all frames.length).length - 1) / 255 + 1)).toNat =
-            (extAmount maxlen (tot3 (frames.map List.length) tot0) pad (extSer all frames.length).length -
-            ((extSer all frames.length).length : Int) -
-            (extAmount maxlen (tot3 (frames.map List.length) tot0) pad (extSer all frames.length).length - 1) / 255 - 1).toNat := by
+            (extAmount maxlen (tot3 (frames.map List.length) tot0) pad B.length - 1) / 255 + 1)).toNat =
+            (extAmount maxlen (tot3 (frames.map List.length) tot0) pad B.length -
+            (B.length : Int) -
+            (extAmount maxlen (tot3 (frames.map List.length) tot0) pad B.length - 1) / 255 - 1).toNat := by
           omega
         rw [e1]
         split <;> simp <;> omega
